@@ -11,7 +11,7 @@ import (
 	"verif/checker/ssax"
 )
 
-func init() { Registry["C18"] = Spec{Run: runC18} }
+func init() { Registry["C18"] = Spec{Run: runC18, Packages: []string{"imports"}} }
 
 const importsPkg = core.ModPath + "/imports"
 
